@@ -97,6 +97,9 @@ type GenOpts struct {
 	ForceDisk   *bool
 }
 
+// Opus configurations with 10, 20, 40 and 60 ms (SILK) and 2.5 .. 20 ms (CELT) frames.
+var opusMixedCfgs = []int{0, 1, 2, 3, 16, 17, 18, 19}
+
 var aacRates = []int{8000, 11025, 12000, 16000, 22050, 24000, 32000, 44100, 48000, 64000, 88200, 96000}
 
 type trackPlan struct {
@@ -108,8 +111,9 @@ type trackPlan struct {
 	frameTicks []int64 // cyclic frame durations
 	gop        int
 	// audio
-	opusCfg int
-	multiAU int
+	opusCfg   int
+	opusMixed bool
+	multiAU   int
 }
 
 type event struct {
@@ -334,6 +338,10 @@ func Gen(seed int64, index int, o GenOpts) *Case {
 			if chance(0.3) {
 				p.multiAU = 2 + pick(3)
 				c.Features["multiau"] = true
+				if chance(0.5) && o.Profile != "regular" {
+					p.opusMixed = true
+					c.Features["opus-mixed-durations"] = true
+				}
 			}
 		} else {
 			if chance(0.3) {
@@ -433,9 +441,17 @@ func Gen(seed int64, index int, o GenOpts) *Case {
 	var events []event
 	ord := 0
 	ntpBase := time.Date(2023, 5, 17, 10, 0, 0, 0, time.UTC).Add(time.Duration(pick(1000000)) * time.Millisecond)
-	ntpMode := pick(3) // 0 linear, 1 jitter, 2 arbitrary
+	ntpMode := pick(4) // 0 linear, 1 jitter, 2 arbitrary, 3 linear with a step at every random-access unit
 	if o.Profile == "e2e" {
-		ntpMode = 0 // paced in real time: wall-clock time advances with the media time
+		// paced in real time: wall-clock time advances with the media time, possibly with steps
+		// (clock adjustments) at segment boundaries; Low-Latency hints extrapolate, so no steps there
+		ntpMode = []int{0, 3}[pick(2)]
+		if c.Cfg.Variant == VarLL {
+			ntpMode = 0
+		}
+	}
+	if ntpMode == 3 {
+		c.Features["ntp-steps"] = true
 	}
 	ntpOf := func(sec float64) time.Time {
 		t := ntpBase.Add(time.Duration((sec - startSec) * float64(time.Second)))
@@ -490,6 +506,7 @@ func Gen(seed int64, index int, o GenOpts) *Case {
 			dts := pts0
 			curParam := 0
 			gopIdx := 0
+			var ntpStepAcc time.Duration
 			frame := 0
 			extraRA := chance(0.15)
 			// zero-length segment: two consecutive random-access units with the same DTS, the
@@ -556,8 +573,12 @@ func Gen(seed int64, index int, o GenOpts) *Case {
 				tsec := sec
 				voc := vo
 				ptsc := pts
+				if ntpMode == 3 && vo.RA {
+					ntpStepAcc += time.Duration(pick(300)) * time.Millisecond
+				}
+				stepc := ntpStepAcc
 				events = append(events, event{t: tsec, order: ord, track: ti, fn: func(wi int) Write {
-					ntp := ntpOf(tsec)
+					ntp := ntpOf(tsec).Add(stepc)
 					data := p.b.Video(wi, ptsc, ntp, voc)
 					return Write{Track: ti, PTS: ptsc, NTP: ntp, Data: data, Samples: []int{len(p.b.Samples) - 1}}
 				}})
@@ -591,6 +612,8 @@ func Gen(seed int64, index int, o GenOpts) *Case {
 			if p.multiAU > 0 {
 				n = p.multiAU
 			}
+			audioWrites := 0
+			var audioStep time.Duration
 			for {
 				sec := float64(pts) / rate
 				if sec-startSec > totalSec {
@@ -598,19 +621,36 @@ func Gen(seed int64, index int, o GenOpts) *Case {
 				}
 				tsec := sec
 				ptsc := pts
+				if ntpMode == 3 && p.isLead && audioWrites%25 == 0 {
+					audioStep += time.Duration(pick(300)) * time.Millisecond
+				}
+				audioWrites++
+				stepc := audioStep
 				if sp.Kind == AAC {
 					events = append(events, event{t: tsec, order: ord, track: ti, fn: func(wi int) Write {
-						ntp := ntpOf(tsec)
+						ntp := ntpOf(tsec).Add(stepc)
 						data, idxs := p.b.AACWrite(wi, ptsc, ntp, n, 8+pick(60))
 						return Write{Track: ti, PTS: ptsc, NTP: ntp, Data: data, Samples: idxs}
 					}})
 				} else {
-					cfg := p.opusCfg
+					// packets of one write share the frame size, or (mixed mode) each has its own
+					cfgs := make([]int, n)
+					adv := int64(0)
+					for k := range cfgs {
+						cfgs[k] = p.opusCfg
+						if p.opusMixed {
+							cfgs[k] = opusMixedCfgs[rng.Intn(len(opusMixedCfgs))]
+						}
+						adv += OpusPacketTicks(cfgs[k])
+					}
 					events = append(events, event{t: tsec, order: ord, track: ti, fn: func(wi int) Write {
-						ntp := ntpOf(tsec)
-						data, idxs := p.b.OpusWrite(wi, ptsc, ntp, n, cfg, 8+pick(60))
+						ntp := ntpOf(tsec).Add(stepc)
+						data, idxs := p.b.OpusWriteMixed(wi, ptsc, ntp, cfgs, 8+pick(60))
 						return Write{Track: ti, PTS: ptsc, NTP: ntp, Data: data, Samples: idxs}
 					}})
+					ord++
+					pts += adv
+					continue
 				}
 				ord++
 				pts += perAU * int64(n)
